@@ -1014,6 +1014,7 @@ static void *task_main(void *a) {
 }
 
 static long long g_plan_no = 0;
+static long long g_zombie_bytes = 0;
 static std::string g_current_id;
 
 extern "C" void sim_hang(void) {
@@ -1154,7 +1155,9 @@ static json run_plan(const json &plan) {
       auto &e = x.second.second; leaked_bytes += (long long)e.size;
       char ra[32]; snprintf(ra, sizeof ra, "0x%" PRIxPTR, (uintptr_t)e.ra);
       if (leaks.size() < 40) leaks.push_back(json{{"size", e.size}, {"op", e.op}, {"task", e.task}, {"fn", e.fn}, {"ra", ra}});
-      __real_free(x.second.first);    // keep the worker's heap from growing
+      // a leaked block is reported, never freed by the harness: the library may still hold a pointer to it
+      // (a process-wide cache); the executor retires when too much has piled up
+      g_zombie_bytes += (long long)e.size;
     }
     std::vector<std::string> open_files; for (auto &f : R.files) open_files.push_back(subst_out(f.second.second));
     std::sort(open_files.begin(), open_files.end());
@@ -1218,8 +1221,11 @@ int main(int argc, char **argv) {
     printf("{\"begin\":\"%s\"}\n", plan.value("id", std::to_string(g_plan_no)).c_str()); fflush(stdout);
     json out;
     try { out = run_plan(plan); } catch (std::exception &e) { out = json{{"id", plan.value("id", "")}, {"fatal", std::string("executor exception: ") + e.what()}}; }
+    bool retire = g_zombie_bytes > (256LL << 20);
+    if (retire) out["recycle"] = true;
     std::string s = out.dump(-1, ' ', true);
     fwrite(s.data(), 1, s.size(), stdout); fputc('\n', stdout); fflush(stdout);
+    if (retire) break;
   }
   free(line);
   clear_sandbox(); rmdir(g_root.c_str());
